@@ -76,7 +76,15 @@ pub fn parse_chunk(p: &mut LuaParser) {
 fn parse_block(p: &mut LuaParser) -> ParseResult {
     let m = p.mark(LuaSyntaxKind::Block);
 
-    parse_stats(p);
+    if p.enter_level() {
+        parse_stats(p);
+        p.leave_level();
+    } else {
+        p.push_error(LuaParseError::syntax_error_from(
+            &t!("block is nested too deeply"),
+            p.current_token_range(),
+        ));
+    }
 
     Ok(m.complete(p))
 }
